@@ -8,6 +8,7 @@
 //   float      floating-point literals from the strtod grammar + garbage, float and double getters
 //   absent     missing arguments: out_of_range, the supplied default, empty get_multi
 //   unused     every subset of getters before assert_none_unused
+//   seq        sequences of getter calls on ONE object: every call answers as it would on a fresh object
 #include <math.h>
 
 #include <phosg/Arguments.hh>
@@ -546,6 +547,297 @@ static void run_unused(const Case& c) {
   ctx().cls(must_throw ? "unused:some-unread" : "unused:all-read");
 }
 
+// ---------------------------------------------------------------- sequences of getters on one object
+
+// What a getter returns (value, invalid_argument, out_of_range, the default) is, by the statement, a function of the token
+// list and of the getter alone. So every call of a SEQUENCE of getter calls on one object must give what the same call gives
+// on a fresh object: absent stays absent, present stays present, whatever was asked before (multi or scalar, with or without
+// default, a failed conversion, assert_none_unused in between).
+//
+// case: s = tokens, n = ops; op = target | getter << 8 | type << 16 | format << 24
+//   target table: the distinct names of the token list in order of first appearance, then those of {"zz","n","x"} that were
+//                 not supplied, then the positional indices 0..P+1 (P = number of positionals); index taken modulo the table size
+//   getter: 0 get_multi<string>   1 get_multi<T>(fmt)   2 get_multi<double>   3 get<string>(id)   4 get<string>(id, other flag)
+//           5 get<bool>           6 get<T>(id, fmt)     7 get<T>(id, 77, fmt) 8 get<double>(id)   9 get<double>(id, 2.5)
+//           10 assert_none_unused
+//   positional targets have no multi/bool getters: 0,3 -> get<string>(i) (throws when missing), 4,5 -> get<string>(i, false),
+//   1 -> 6, 2 -> 8. A scalar getter addressed to a name with several values is executed as the multi getter of the same type
+//   (what a scalar getter does with a repeated option is not settled by the statement).
+enum SeqGetter : uint64_t { SG_MULTI_S = 0, SG_MULTI_I, SG_MULTI_F, SG_STR, SG_STR_FLAG, SG_BOOL, SG_INT, SG_INT_DEF, SG_FLT, SG_FLT_DEF, SG_ASSERT, SG_COUNT };
+static const char* kSeqGetterNames[SG_COUNT] = {"get_multi<string>", "get_multi<int>", "get_multi<double>", "get<string>", "get<string>(flag)", "get<bool>", "get<int>",
+    "get<int>(default)", "get<double>", "get<double>(default)", "assert_none_unused"};
+
+struct SeqTargets {
+  std::vector<std::string> names; // supplied names first
+  size_t supplied = 0;
+  size_t positionals = 0;
+  size_t size() const { return names.size() + positionals + 2; }
+};
+static SeqTargets seq_targets(const c17::RefArgs& r) {
+  SeqTargets t;
+  for (const auto& it : r.named) t.names.push_back(it.first);
+  t.supplied = t.names.size();
+  for (const char* probe : {"zz", "n", "x"})
+    if (!r.find(probe)) t.names.push_back(probe);
+  t.positionals = r.positional.size();
+  return t;
+}
+
+enum UsedState : uint8_t { U_UNREAD = 0, U_READ = 1, U_UNKNOWN = 2 };
+
+static uint64_t seq_op(uint64_t target, uint64_t getter, uint64_t type, uint64_t fmt) { return target | (getter << 8) | (type << 16) | (fmt << 24); }
+
+static void run_seq(const Case& c) {
+  const std::vector<std::string>& tokens = c.s;
+  for (const auto& t : tokens)
+    if (has_nul(t)) throw std::logic_error("NUL byte in a token (outside the domain)");
+  c17::RefArgs r = c17::classify(tokens);
+  SeqTargets tt = seq_targets(r);
+  // used-flag model: a value that a getter returned is read; one whose conversion failed (or is unsettled) may or may not count
+  std::vector<uint8_t> used_pos(r.positional.size(), U_UNREAD);
+  std::vector<std::vector<uint8_t>> used_named;
+  for (const auto& it : r.named) used_named.emplace_back(it.second.size(), U_UNREAD);
+  Args a(tokens);
+  std::vector<uint64_t> addressed(tt.size(), 0);
+  bool absent_twice = false, multi_then_scalar_absent = false;
+  std::vector<uint8_t> absent_multi_seen(tt.size(), 0);
+
+  for (size_t k = 0; k < c.n.size(); k++) {
+    uint64_t op = c.u(k);
+    uint64_t target = (op & 0xFF) % tt.size(), g = (op >> 8) & 0xFF, code = (op >> 16) & 0xFF, f = (op >> 24) & 0xFF;
+    if (g >= SG_COUNT || code > 7 || f > 3) throw std::logic_error("bad op");
+    Args::IntFormat fmt = fmt_of(f);
+    const bool named = target < tt.names.size();
+    std::string what;
+    auto fail_ctx = [&]() { return cat(" [op #", k, " of ", c.n.size(), ": ", what, "; tokens=", show(tokens), "]"); };
+
+    if (g == SG_ASSERT) {
+      what = "assert_none_unused()";
+      bool some_unread = false, some_unknown = false;
+      for (uint8_t u : used_pos) some_unread |= (u == U_UNREAD), some_unknown |= (u == U_UNKNOWN);
+      for (const auto& v : used_named)
+        for (uint8_t u : v) some_unread |= (u == U_UNREAD), some_unknown |= (u == U_UNKNOWN);
+      std::string th = thrown([&] { a.assert_none_unused(); });
+      if (some_unread) VCHECK(th == "invalid_argument", "seq-unused-not-reported", "assert_none_unused ", th.empty() ? "returned" : cat("threw ", th), " although something was never read", fail_ctx());
+      else if (!some_unknown) VCHECK(th.empty(), "seq-unused-false-alarm", "everything was read but assert_none_unused threw ", th, fail_ctx());
+      else VCHECK(th.empty() || th == "invalid_argument", "seq-unused-throws", "assert_none_unused threw ", th, fail_ctx());
+      continue;
+    }
+
+    addressed[target]++;
+    // the values the reference knows for the target (absent: none)
+    std::vector<std::string> vals;
+    std::vector<uint8_t>* used = nullptr;
+    bool present;
+    size_t pos_index = 0;
+    std::string name;
+    if (named) {
+      name = tt.names[target];
+      present = target < tt.supplied;
+      if (present) {
+        vals = r.named[target].second;
+        used = &used_named[target];
+      }
+      if (vals.size() >= 2) {
+        if (g == SG_STR || g == SG_STR_FLAG || g == SG_BOOL) g = SG_MULTI_S;
+        else if (g == SG_INT || g == SG_INT_DEF) g = SG_MULTI_I;
+        else if (g == SG_FLT || g == SG_FLT_DEF) g = SG_MULTI_F;
+      }
+    } else {
+      pos_index = target - tt.names.size();
+      present = pos_index < r.positional.size();
+      static std::vector<uint8_t> one;
+      if (present) {
+        vals = {r.positional[pos_index]};
+        one.assign(1, used_pos[pos_index]);
+        used = &one;
+      }
+      if (g == SG_MULTI_S) g = SG_STR;
+      else if (g == SG_BOOL) g = SG_STR_FLAG;
+      else if (g == SG_MULTI_I) g = SG_INT;
+      else if (g == SG_MULTI_F) g = SG_FLT;
+    }
+    what = cat(kSeqGetterNames[g], named ? cat(" of name ", show(name)) : cat(" of positional #", pos_index), present ? cat(" (supplied: ", show(vals), ")") : " (not supplied)",
+        (g == SG_MULTI_I || g == SG_INT || g == SG_INT_DEF) ? cat(" type ", kTypeNames[code], " format ", kFmtNames[f]) : std::string());
+    if (!present) {
+      if (addressed[target] >= 2) absent_twice = true;
+      if (g <= SG_MULTI_F) absent_multi_seen[target] = 1;
+      else if (absent_multi_seen[target]) multi_then_scalar_absent = true;
+    }
+    auto mark = [&](uint8_t state) {
+      if (!used) return;
+      for (auto& u : *used)
+        if (u != U_READ) u = state;
+    };
+    const char* absent_sig = "seq-absent";
+    std::string gname = kSeqGetterNames[g];
+
+    // per-value expectations for the typed getters
+    enum Kind { K_VALUE, K_INVALID, K_EITHER };
+    auto int_kind = [&](const std::string& text, uint64_t& bits) {
+      c17::Numeral m = c17::parse_numeral(text, kFmtBase[f]);
+      if (m.platform) return K_EITHER;
+      c17::IntExpect ex = c17::expect_int(m, code);
+      bits = ex.bits;
+      return ex.kind == c17::Expect::VALUE ? K_VALUE : ex.kind == c17::Expect::INVALID ? K_INVALID : K_EITHER;
+    };
+    auto flt_kind = [&](const std::string& text, c17::FloatLit& lit) {
+      lit = c17::parse_float_literal(text);
+      return !lit.complete ? K_INVALID : !lit.in_range ? K_EITHER : K_VALUE;
+    };
+    auto same_double = [](double g2, const c17::FloatLit& lit) { return lit.is_nan ? std::isnan(g2) : (g2 == lit.value && std::signbit(g2) == std::signbit(lit.value)); };
+    // overall expectation of a typed read of all of `vals`
+    auto overall = [&](auto&& kind_of) {
+      Kind o = K_VALUE;
+      for (const auto& v : vals) {
+        Kind kd = kind_of(v);
+        if (kd == K_EITHER) return K_EITHER;
+        if (kd == K_INVALID) o = K_INVALID;
+      }
+      return o;
+    };
+    auto judge_typed = [&](Kind o, const std::string& th, bool values_ok) {
+      if (o == K_VALUE) {
+        VCHECK(th.empty(), cat("seq-rejects:", gname), what, " threw ", th, " but every value is a complete literal that fits", fail_ctx());
+        VCHECK(values_ok, cat("seq-value:", gname), what, " returned a wrong value", fail_ctx());
+        mark(U_READ);
+      } else if (o == K_INVALID) {
+        VCHECK(th == "invalid_argument", cat("seq-accepts:", gname), what, th.empty() ? " returned" : cat(" threw ", th), " but must throw invalid_argument", fail_ctx());
+        mark(U_UNKNOWN);
+      } else {
+        VCHECK(th.empty() || th == "invalid_argument", cat("seq-unsettled-throws:", gname), what, " threw ", th, fail_ctx());
+        mark(U_UNKNOWN);
+      }
+    };
+
+    switch (g) {
+      case SG_MULTI_S: {
+        std::vector<std::string> got;
+        std::string th = thrown([&] { got = a.get_multi<std::string>(name); });
+        VCHECK(th.empty() && got == vals, present ? "seq-value:get_multi<string>" : absent_sig, what, ": ", th.empty() ? show(got) : th, " expected ", show(vals), fail_ctx());
+        mark(U_READ);
+        break;
+      }
+      case SG_MULTI_I: {
+        with_type(code, [&](auto tag) {
+          using T = decltype(tag);
+          std::vector<T> got;
+          std::string th = thrown([&] { got = a.get_multi<T>(name, fmt); });
+          Kind o = overall([&](const std::string& v) { uint64_t b; return int_kind(v, b); });
+          bool ok = got.size() == vals.size();
+          if (o == K_VALUE && ok)
+            for (size_t j = 0; j < vals.size(); j++) {
+              uint64_t b = 0;
+              int_kind(vals[j], b);
+              ok &= (got[j] == static_cast<T>(b));
+            }
+          if (!present) VCHECK(th.empty() && got.empty(), absent_sig, what, ": ", th, " size ", got.size(), fail_ctx());
+          else judge_typed(o, th, ok);
+        });
+        break;
+      }
+      case SG_MULTI_F: {
+        std::vector<double> got;
+        std::string th = thrown([&] { got = a.get_multi<double>(name); });
+        Kind o = overall([&](const std::string& v) { c17::FloatLit l; return flt_kind(v, l); });
+        bool ok = got.size() == vals.size();
+        if (o == K_VALUE && ok)
+          for (size_t j = 0; j < vals.size(); j++) {
+            c17::FloatLit l;
+            flt_kind(vals[j], l);
+            ok &= same_double(got[j], l);
+          }
+        if (!present) VCHECK(th.empty() && got.empty(), absent_sig, what, ": ", th, " size ", got.size(), fail_ctx());
+        else judge_typed(o, th, ok);
+        break;
+      }
+      case SG_STR:
+      case SG_STR_FLAG: {
+        // named: get<string>(name) returns "" when missing, get<string>(name, true) throws; positional: get<string>(i) throws, (i, false) returns ""
+        bool throws_when_missing = named ? (g == SG_STR_FLAG) : (g == SG_STR);
+        std::string got = "?";
+        std::string th = thrown([&] {
+          if (named) got = throws_when_missing ? a.get<std::string>(name, true) : a.get<std::string>(name);
+          else got = throws_when_missing ? a.get<std::string>(pos_index) : a.get<std::string>(pos_index, false);
+        });
+        if (present) {
+          VCHECK(th.empty() && got == vals[0], cat("seq-value:", gname), what, ": ", th.empty() ? show(got) : th, fail_ctx());
+          mark(U_READ);
+        } else if (throws_when_missing) {
+          VCHECK(th == "out_of_range", absent_sig, what, ": ", th.empty() ? cat("returned ", show(got)) : cat("threw ", th), " expected out_of_range", fail_ctx());
+        } else {
+          VCHECK(th.empty() && got.empty(), absent_sig, what, ": ", th.empty() ? cat("returned ", show(got)) : cat("threw ", th), " expected the empty string", fail_ctx());
+        }
+        break;
+      }
+      case SG_BOOL: {
+        bool got = !present;
+        std::string th = thrown([&] { got = a.get<bool>(name.c_str()); });
+        VCHECK(th.empty() && got == present, present ? "seq-value:get<bool>" : absent_sig, what, ": ", th.empty() ? (got ? "returned true" : "returned false") : cat("threw ", th), fail_ctx());
+        mark(U_READ);
+        break;
+      }
+      case SG_INT:
+      case SG_INT_DEF: {
+        bool def = g == SG_INT_DEF;
+        with_type(code, [&](auto tag) {
+          using T = decltype(tag);
+          T got = 0;
+          std::string th = thrown([&] {
+            if (named) got = def ? a.get<T>(name, static_cast<T>(77), fmt) : a.get<T>(name, fmt);
+            else got = def ? a.get<T>(pos_index, static_cast<T>(77), fmt) : a.get<T>(pos_index, fmt);
+          });
+          if (!present) {
+            if (def) VCHECK(th.empty() && got == static_cast<T>(77), absent_sig, what, ": ", th.empty() ? cat("returned ", static_cast<int64_t>(got)) : cat("threw ", th), " expected the default", fail_ctx());
+            else VCHECK(th == "out_of_range", absent_sig, what, ": ", th.empty() ? cat("returned ", static_cast<int64_t>(got)) : cat("threw ", th), " expected out_of_range", fail_ctx());
+          } else {
+            uint64_t b = 0;
+            Kind o = int_kind(vals[0], b);
+            judge_typed(o, th, got == static_cast<T>(b));
+          }
+        });
+        break;
+      }
+      case SG_FLT:
+      case SG_FLT_DEF: {
+        bool def = g == SG_FLT_DEF;
+        double got = 0;
+        std::string th = thrown([&] {
+          if (named) got = def ? a.get<double>(name, std::optional<double>(2.5)) : a.get<double>(name);
+          else got = def ? a.get<double>(pos_index, std::optional<double>(2.5)) : a.get<double>(pos_index);
+        });
+        if (!present) {
+          if (def) VCHECK(th.empty() && got == 2.5, absent_sig, what, ": ", th.empty() ? cat("returned ", got) : cat("threw ", th), " expected the default", fail_ctx());
+          else VCHECK(th == "out_of_range", absent_sig, what, ": ", th.empty() ? cat("returned ", got) : cat("threw ", th), " expected out_of_range", fail_ctx());
+        } else {
+          c17::FloatLit l;
+          Kind o = flt_kind(vals[0], l);
+          judge_typed(o, th, o != K_VALUE || same_double(got, l));
+        }
+        break;
+      }
+      default: throw std::logic_error("bad getter");
+    }
+    if (!named && present) used_pos[pos_index] = (*used)[0];
+  }
+  // at the end the used-flag bookkeeping must still agree with what was read
+  {
+    bool some_unread = false, some_unknown = false;
+    for (uint8_t u : used_pos) some_unread |= (u == U_UNREAD), some_unknown |= (u == U_UNKNOWN);
+    for (const auto& v : used_named)
+      for (uint8_t u : v) some_unread |= (u == U_UNREAD), some_unknown |= (u == U_UNKNOWN);
+    std::string th = thrown([&] { a.assert_none_unused(); });
+    std::string tail = cat(" [after ", c.n.size(), " ops; tokens=", show(tokens), "]");
+    if (some_unread) VCHECK(th == "invalid_argument", "seq-unused-not-reported", "assert_none_unused ", th.empty() ? "returned" : cat("threw ", th), " although something was never read", tail);
+    else if (!some_unknown) VCHECK(th.empty(), "seq-unused-false-alarm", "everything was read but assert_none_unused threw ", th, tail);
+    else VCHECK(th.empty() || th == "invalid_argument", "seq-unused-throws", "assert_none_unused threw ", th, tail);
+  }
+  bool twice = false;
+  for (uint64_t n : addressed) twice |= (n >= 2);
+  if (twice) ctx().nontrivial_case();
+  ctx().cls(multi_then_scalar_absent ? "seq:scalar getter after a multi getter on the same absent name" : absent_twice ? "seq:an absent target addressed twice" : twice ? "seq:a supplied target addressed twice" : "seq:every target addressed once");
+}
+
 // ---------------------------------------------------------------- generators
 
 static const std::vector<std::string> kTokens = {"", "-", "--", "-a", "-ab", "--x", "--x=", "--x=1", "--x=2", "--y=v=w", "pos", "-5"};
@@ -768,6 +1060,31 @@ static Case gen_unused() {
   }
   c.N(mask).N(vg::u64());
   for (auto& t : toks) c.S(t);
+  return c;
+}
+
+static Case gen_seq() {
+  Case c("seq");
+  size_t k = vg::below(6);
+  for (size_t i = 0; i < k; i++) {
+    switch (vg::below(4)) {
+      case 0: c.S(vg::pick(kTokens)); break;
+      case 1: c.S(gen_token()); break;
+      default: c.S(vg::pick<std::string>({"17", "--x=3", "--n=12", "--n=7", "-n", "-xy", "--y", "0", "--z=abc", "--x=0x10", "--n=-5", "--n=300", "--f=1.5", "--x=1e3", "-5", "4.0", "--n=", "--x= 7", "--n=08", "--zz=1"})); break;
+    }
+  }
+  c17::RefArgs r = c17::classify(c.s);
+  SeqTargets tt = seq_targets(r);
+  size_t nops = 1 + vg::scaled(9);
+  uint64_t focus = vg::below(tt.size());
+  for (size_t i = 0; i < nops; i++) {
+    // most operations go to one or two targets, so that the same name / index is asked several times in different ways
+    uint64_t target = vg::chance(3, 5) ? focus : vg::below(tt.size());
+    uint64_t g = vg::chance(1, 12) ? SG_ASSERT : vg::below(SG_ASSERT);
+    uint64_t code = vg::chance(1, 2) ? 6 : vg::below(8);
+    uint64_t f = vg::chance(2, 3) ? 0 : vg::below(4);
+    c.N(seq_op(target, g, code, f));
+  }
   return c;
 }
 
@@ -1010,6 +1327,53 @@ static void enum_unused(Enum& e) {
   e.complete(cat("all token lists of <= ", maxlen, " tokens over the 12-token alphabet x every subset of read handles (positional indices and distinct names) read before assert_none_unused; getter kind per handle by hash"));
 }
 
+// every ordered pair (and, for the absent names, triple) of getter calls on one object
+static void enum_seq(Enum& e) {
+  static const std::vector<std::vector<std::string>> lists = {{}, {"--x=1"}, {"--x=1", "--x=2"}, {"pos", "--y=v=w"}, {"-ab", "5"}, {"--n=12", "--x"}, {"--n=abc", "7"}};
+  uint64_t idx = 0;
+  for (const auto& toks : lists) {
+    c17::RefArgs r = c17::classify(toks);
+    SeqTargets tt = seq_targets(r);
+    std::vector<uint64_t> ops;
+    for (uint64_t t = 0; t < tt.size(); t++)
+      for (uint64_t g = 0; g < SG_ASSERT; g++) ops.push_back(seq_op(t, g, 6, 0));
+    ops.push_back(seq_op(0, SG_ASSERT, 6, 0));
+    for (uint64_t o1 : ops) {
+      if (e.stop) return;
+      if (!e.mine(idx++)) continue;
+      for (uint64_t o2 : ops) {
+        Case c("seq");
+        c.s = toks;
+        c.N(o1).N(o2);
+        e.exec(c);
+      }
+    }
+    // triples on the targets that were not supplied (absent names and the positional index past the end)
+    std::vector<uint64_t> aops;
+    for (uint64_t t = tt.supplied; t < tt.size(); t++) {
+      if (t >= tt.names.size() && t - tt.names.size() < tt.positionals) continue;
+      if (t > tt.supplied && t < tt.names.size()) continue; // one absent name is enough for the triples
+      if (t == tt.size() - 1) continue; // one index past the end is enough
+      for (uint64_t g = 0; g < SG_ASSERT; g++) aops.push_back(seq_op(t, g, 6, 0));
+    }
+    for (uint64_t o1 : aops) {
+      if (e.stop) return;
+      if (!e.mine(idx++)) continue;
+      for (uint64_t o2 : aops)
+        for (uint64_t o3 : aops) {
+          Case c("seq");
+          c.s = toks;
+          c.N(o1).N(o2).N(o3);
+          e.exec(c);
+        }
+    }
+  }
+  e.complete("7 token lists (empty; one / repeated option; positional + option; flag group + positional; option without value; non-numeric value) x every ordered pair of "
+             "getter calls over {every supplied name, 3 names that were not supplied, every positional index up to 2 past the end} x the 10 getter forms "
+             "(get_multi<string/int32/double>, get<string> with and without flag, get<bool>, get<int32> / get<double> with and without default) and "
+             "assert_none_unused; every ordered triple of the 10 getter forms on one absent name and on the positional index past the end");
+}
+
 int main(int argc, char** argv) {
   std::vector<SubCheck> checks;
   checks.push_back({"classify", run_classify, gen_classify, 30000, 200000, 100, enum_classify});
@@ -1019,5 +1383,6 @@ int main(int argc, char** argv) {
   checks.push_back({"float", run_float, gen_float, 120000, 800000, 100, enum_float});
   checks.push_back({"absent", run_absent, gen_absent, 2000, 20000, 100, enum_absent});
   checks.push_back({"unused", run_unused, gen_unused, 60000, 300000, 100, enum_unused});
+  checks.push_back({"seq", run_seq, gen_seq, 60000, 400000, 100, enum_seq});
   return main_(argc, argv, checks);
 }
